@@ -17,6 +17,7 @@ import Rl.Drv.Printer
 import Rl.Drv.Sqlite
 import Rl.Drv.Render
 import Rl.Drv.LineBuffer
+import Rl.Drv.FileSession
 open Rl Rl.Wire
 
 def dispatch (tbl : CharTable) (target : String) (f : List String) (impl : String) : String × String :=
@@ -31,6 +32,8 @@ def dispatch (tbl : CharTable) (target : String) (f : List String) (impl : Strin
     | "pr" => Rl.Drv.Printer.handle tbl f impl
     | "sqlite" => Rl.Drv.Sqlite.handle tbl f impl
     | "render" => Rl.Drv.Render.handle tbl f impl
+    | "sess" => Rl.Drv.FileSession.handle tbl f impl
+    | "sessx" => Rl.Drv.FileSession.handleX tbl f impl
     | "lb" => Rl.Drv.LineBuffer.handle tbl f impl
     | "lb4" => Rl.Drv.LineBuffer.handle4 tbl f impl
     | "comp" | "clcp" | "cfs" => Rl.Drv.Completion.handle target tbl f impl
